@@ -117,6 +117,19 @@ func (g *hdGen) idref(priv bool) *hdIdRef {
 }
 
 func (g *hdGen) recipient() *hdRecipient {
+	to := g.recipientPlain()
+	// now and then members the type does not call for (they must not matter)
+	if g.r.intn(5) == 0 {
+		if g.r.intn(2) == 0 {
+			to.SU = 1 + g.r.intn(3)
+		} else {
+			to.SId = &hdIdRef{T: "pub", C: g.pickConn()}
+		}
+	}
+	return to
+}
+
+func (g *hdGen) recipientPlain() *hdRecipient {
 	switch g.r.intn(10) {
 	case 0, 1, 2:
 		return &hdRecipient{T: "session", Id: g.idref(false)}
